@@ -145,10 +145,10 @@ def b_star_join_classify(self, names, meta, got, exp):
             if len(missing) == 1 and not extra and bool(missing[0][1] == C(W, low(k3))):
                 return "C13-star-over-join-overlapping-column-keeps-one-source"
     elif kn1 != kn2:
-        # recorded finding: only one of the joined tables is known -> the unknown table's wildcard lineage (t.* -> w.*) is
-        # lost and a one-node path (t.*, t.*) is reported instead
+        # recorded finding: only one of the joined tables is known -> the unknown table's wildcard lineage (t.* -> w.*) is lost
         unk = T2 if kn1 else T1
-        want = [p for p in exp if not (bool(p[0] == C(unk, "*")))] + [(C(unk, "*"), C(unk, "*"))]
+        # (before fix 10295e9 the lost wildcard also showed up as a one-node path (t.*, t.*); lone columns are no longer paths)
+        want = [p for p in exp if not (bool(p[0] == C(unk, "*")))]
         if set_eq(got.pairs, want):
             return "C13-star-over-join-partial-knowledge-loses-wildcard"
     return None
